@@ -242,6 +242,12 @@ def run_case0(c, mix):
                 py_fail = "slicing differs from list slicing"
             elif not (v == lst) or (lst and v == lst[:-1]) or (v != lst):
                 py_fail = "equality with the list is wrong"
+            # (with a numpy-integer label next to a tuple label even two plain Python lists cannot be compared
+            #  position by position, so the order test is only made without that mix)
+            elif not (v == Variables(lst)) or (v != Variables(lst)):
+                py_fail = "equality with an equal Variables object is wrong"
+            elif len(lst) > 1 and not mix and (v == Variables(lst[1:] + lst[:1]) or v == Variables(lst[::-1]) and lst[::-1] != lst):
+                py_fail = "a Variables object with the same labels in another order compares equal"
             elif list(v.copy()) != lst or list(copy.deepcopy(v)) != lst or list(pickle.loads(pickle.dumps(v))) != lst:
                 py_fail = "copy/pickle differs"
             elif any((p in v) != any(safe_eq(p, x) for x in lst) for p in probes):
